@@ -297,47 +297,50 @@ def rule_r6(prog, res) -> None:
         res.ok("C15.R6", res.site(init, "closed"), "closed side validated by the Closed enum")
     else:
         res.violation("C15.R6", init, init.node, "Binning.closed is stored without validation by the Closed enum", key_extra="closed-unvalidated")
+    # strictness guards, decided by folding the path conditions of the validators (symbolic store; helpers looked
+    # through) on concrete values: which outcome (raise / return) a value leads to, however the tests are written
+    from .. import symx
+
     pb = prog.func("parse_binning")
     res.touch(pb)
-    cfg = cfg_of(pb.node)
-    strict = False
-    for t in cfg.nodes:
-        if t.kind == "test" and "diff" in unparse(t.expr) and any(raise_dominated_by(cfg, bb) for pol, bb in branch_nodes_of(cfg, t).items() if pol):
-            for cmp_ in [c for c in ast.walk(t.expr) if isinstance(c, ast.Compare)]:
-                try:
-                    zero = ceval(cmp_, {unparse(cmp_.left): 0.0})
-                    neg = ceval(cmp_, {unparse(cmp_.left): -1.0})
-                    pos = ceval(cmp_, {unparse(cmp_.left): 1.0})
-                except Unknown:
-                    continue
-                if zero and neg and not pos:
-                    strict = True
-    if strict:
-        res.ok("C15.R6", res.site(pb), "raises when any edge difference is <= 0 (equal edges rejected)")
+    ppaths = symx.explore(prog, pb, inline=symx.inline_private_helpers(prog))
+    diffs = sorted({unparse(y) for p in ppaths for t, _ in p.literals() for y in ast.walk(t) if isinstance(y, ast.Call) and (dotted(y.func) or "").split(".")[-1] in ("diff", "ediff1d")})
+    verdict = {}
+    if diffs:
+        shape_ok = {unparse(y): v for p in ppaths for t, _ in p.literals() for y in ast.walk(t) if isinstance(y, (ast.Attribute, ast.Call)) for v in [1 if (isinstance(y, ast.Attribute) and y.attr == "ndim") else (5 if isinstance(y, ast.Call) and isinstance(y.func, ast.Name) and y.func.id == "len" else None)] if v is not None}
+        a_ = pb.node.args
+        defaults = {q.arg: d.value for q, d in zip(a_.kwonlyargs, a_.kw_defaults) if isinstance(d, ast.Constant)}
+        defaults.update({q.arg: d.value for q, d in zip(a_.args[len(a_.args) - len(a_.defaults) :], a_.defaults) if isinstance(d, ast.Constant)})
+        for v in (-1.0, 0.0, 1.0):
+            env = dict(shape_ok)
+            env.update(defaults)  # optional flags at their default (an array is given)
+            env.update({d: v for d in diffs})
+            verdict[v] = symx.outcomes_under(ppaths, env)
+    if verdict.get(-1.0) == {"raise"} and verdict.get(0.0) == {"raise"} and verdict.get(1.0) == {"return"}:
+        res.ok("C15.R6", res.site(pb), "raises when any edge difference is <= 0 (equal edges rejected), returns for increasing edges")
     else:
-        res.violation("C15.R6", pb, pb.node, "parse_binning does not reject equal or decreasing neighbouring edges", key_extra="binning-not-strict")
+        res.violation("C15.R6", pb, pb.node, f"parse_binning does not reject equal or decreasing neighbouring edges (outcome for an edge difference of -1 / 0 / +1: {verdict.get(-1.0)} / {verdict.get(0.0)} / {verdict.get(1.0)})", key_extra="binning-not-strict")
     sc = prog.find_class("Scales")
     ss = sc.methods["_set_scales"]
     res.touch(ss)
-    cfg = cfg_of(ss.node)
-    strict = False
-    for t in cfg.nodes:
-        if t.kind == "test" and "scale_max" in unparse(t.expr) and "scale_min" in unparse(t.expr) and any(raise_dominated_by(cfg, bb) for pol, bb in branch_nodes_of(cfg, t).items() if pol):
-            for cmp_ in [c for c in ast.walk(t.expr) if isinstance(c, ast.Compare) and isinstance(c.left, ast.BinOp)]:
-                try:
-                    zero = ceval(cmp_, {unparse(cmp_.left): 0.0})
-                    pos = ceval(cmp_, {unparse(cmp_.left): 1.0})
-                    neg = ceval(cmp_, {unparse(cmp_.left): -1.0})
-                except Unknown:
-                    continue
-                sub = cmp_.left
-                order_ok = isinstance(sub.op, ast.Sub) and "max" in unparse(sub.left) and "min" in unparse(sub.right)
-                if zero and neg and not pos and order_ok:
-                    strict = True
-    if strict:
-        res.ok("C15.R6", res.site(ss), "raises when rmax - rmin <= 0")
+    spaths = symx.explore(prog, ss, inline=symx.inline_private_helpers(prog))
+    pmin, pmax = ss.param_names()[1:3]
+    sverdict = {}
+    for lo, hi in ((1.0, 2.0), (2.0, 2.0), (3.0, 2.0)):
+        env = {pmin: lo, pmax: hi}
+        # the shape tests (ndim / len of the two arrays) hold for two scalars of equal shape
+        for p in spaths:
+            for t, _ in p.literals():
+                for y in ast.walk(t):
+                    if isinstance(y, ast.Attribute) and y.attr == "ndim":
+                        env[unparse(y)] = 1
+                    if isinstance(y, ast.Call) and isinstance(y.func, ast.Name) and y.func.id == "len":
+                        env[unparse(y)] = 1
+        sverdict[(lo, hi)] = symx.outcomes_under(spaths, env)
+    if sverdict[(1.0, 2.0)] == {"return"} and sverdict[(2.0, 2.0)] == {"raise"} and sverdict[(3.0, 2.0)] == {"raise"}:
+        res.ok("C15.R6", res.site(ss), "raises when rmax - rmin <= 0, accepts rmin < rmax")
     else:
-        res.violation("C15.R6", ss, ss.node, "_set_scales does not reject rmin >= rmax", key_extra="scales-not-strict")
+        res.violation("C15.R6", ss, ss.node, f"_set_scales does not reject rmin >= rmax (outcomes for (min, max) = (1,2) / (2,2) / (3,2): {sverdict[(1.0, 2.0)]} / {sverdict[(2.0, 2.0)]} / {sverdict[(3.0, 2.0)]})", key_extra="scales-not-strict")
     for sub in prog.subclasses(sc):
         i2 = sub.methods.get("__init__")
         if i2 is None:
@@ -353,10 +356,11 @@ def rule_r6(prog, res) -> None:
     bc = prog.find_class("BinningConfig")
     cr = bc.methods["create"]
     res.touch(cr)
-    cfgc = cfg_of(cr.node)
-    # neither edges nor zmin/zmax -> raise
-    tests = [t for t in cfgc.nodes if t.kind == "test" and "auto_args_set" in unparse(t.expr) and "custom_args_set" in unparse(t.expr)]
-    if tests and any(raise_dominated_by(cfgc, bb) for t in tests for pol, bb in branch_nodes_of(cfgc, t).items() if pol):
+    # neither edges nor zmin/zmax -> every path raises
+    cparams = cr.param_names()
+    env_none = {q: None for q in cparams if q in ("edges", "zmin", "zmax")}
+    cpaths = symx.explore(prog, cr, env=env_none, inline=symx.inline_private_helpers(prog))
+    if cpaths and len(env_none) == 3 and all(p.outcome == "raise" for p in cpaths):
         res.ok("C15.R6", res.site(cr, "required parameters"), "raises when neither edges nor zmin and zmax are given")
     else:
         res.violation("C15.R6", cr, cr.node, "BinningConfig.create no longer raises when neither edges nor zmin/zmax are given", key_extra="create-no-required-check")
